@@ -7,7 +7,7 @@
 From Coq Require Import List ZArith Bool.
 From Coq Require Import Permutation Sorted.
 From TskVerif Require Import Base.Common C14.Model C14.Spec C14.Basics C14.SubsetMain
-     C14.SubsetCorollaries C14.SubsetIdentity C14.UnionProofs C14.UnionRows C14.SortProofs C14.UnionFull C14.UnionRefs C14.InverseProofs C14.InverseRows C14.GuardProofs C14.SortRemap C14.Examples.
+     C14.SubsetCorollaries C14.SubsetIdentity C14.UnionProofs C14.UnionRows C14.SortProofs C14.UnionFull C14.UnionRefs C14.InverseProofs C14.InverseRows C14.GuardProofs C14.SortRemap C14.WrapperProofs C14.InverseRefs C14.Examples.
 Import ListNotations.
 Open Scope Z_scope.
 
@@ -320,3 +320,66 @@ Theorem union_attributes_otherwise_irrelevant : forall a_self a_other self other
   (chk = false \/ attrs_eqb a_self a_other = true) ->
   union_with_attrs a_self a_other self other mapping chk addp = union self other mapping chk addp.
 Proof. exact union_attrs_equal_lemma. Qed.
+
+(* ---- final round ---- *)
+(* the Python wrappers: TreeSequence.subset = TableCollection.subset = C subset, then the sorter,
+   for every node list (no shortcut for the identity list) and every flag combination; one
+   provenance row iff asked *)
+Theorem ts_subset_is_subset_then_sort : forall t nodes prov rp ru,
+  ts_subset t nodes prov rp ru = tc_subset t nodes prov rp ru /\
+  tc_subset t nodes prov rp ru =
+    (do t1 <- subset t nodes (negb ru) (negb rp);
+     do t2 <- sort_tables t1;
+     Ok (t2, if prov then 1 else 0)).
+Proof. exact ts_subset_is_subset_then_sort_lemma. Qed.
+
+Theorem ts_subset_spec : forall t nodes prov rp ru t' k,
+  refs_in_range t = true ->
+  ts_subset t nodes prov rp ru = Ok (t', k) ->
+  let sp := spec_subset t nodes (negb ru) (negb rp) in
+  forallb (in_range (zlen (t_nodes t))) nodes = true /\
+  k = (if prov then 1 else 0) /\
+  t_nodes t' = t_nodes sp /\ t_individuals t' = t_individuals sp /\ t_populations t' = t_populations sp /\
+  Permutation (t_edges t') (t_edges sp) /\
+  Sorted (fun a b => edge_le (node_time (t_nodes sp)) a b = true) (t_edges t') /\
+  Permutation (t_sites t') (t_sites sp) /\ Sorted (fun a b => s_pos a <= s_pos b) (t_sites t') /\
+  Permutation (map mut_core (t_mutations t')) (map mut_core (t_mutations sp)).
+Proof. exact ts_subset_spec_lemma. Qed.
+
+Theorem ts_union_is_union : forall self other mapping chk addp prov,
+  ts_union self other mapping chk addp prov =
+  match union self other mapping chk addp with
+  | Ok u => Ok (u, if prov then 1 else 0) | Err c => Err c | OOB => OOB | Fuel => Fuel end.
+Proof. exact ts_union_is_union_lemma. Qed.
+
+(* (g, populations) every listed node of T is found at [cover_id] referring to a population row
+   equal to the one it referred to in T (NULL stays NULL) — when union adds populations, or when
+   subset left the population table alone so that ids agree.  Outside these two cases union keeps
+   an id that means something else in self (documented assumption of add_populations=False). *)
+Theorem subset_union_inverse_populations_partial :
+  forall T A B keep_unreferenced no_change_populations check_shared add_populations S O U,
+  refs_in_range T = true ->
+  NoDup A -> NoDup B ->
+  (add_populations = true \/ no_change_populations = true) ->
+  subset T A keep_unreferenced no_change_populations = Ok S ->
+  subset T B keep_unreferenced no_change_populations = Ok O ->
+  union S O (mapping_of A B) check_shared add_populations = Ok U ->
+  forall u r, listed A u || listed B u = true -> getz (t_nodes T) u = Ok r ->
+    exists r', getz (t_nodes U) (cover_id A B u) = Ok r' /\
+      (n_pop r = NULL -> n_pop r' = NULL) /\
+      (n_pop r <> NULL -> getz (t_populations U) (n_pop r') = getz (t_populations T) (n_pop r)).
+Proof. exact subset_union_inverse_populations_lemma. Qed.
+
+(* canonical order of individuals and its id map *)
+Theorem canonical_individuals_sorted_remap : forall ns inds ns' inds',
+  sort_individuals_canonical ns inds = Ok (ns', inds') ->
+  exists ndesc sorted,
+    individual_num_descendants inds = Ok ndesc /\
+    Permutation sorted (index_from 0 inds) /\
+    Sorted (fun a b => individual_canonical_le ndesc (first_nodes ns) a b = true) sorted /\
+    let idmap := positions_from 0 sorted mnull in
+    inds' = map (fun ir => mkI (i_flags (snd ir)) (i_loc (snd ir))
+                               (map (remap_ref idmap) (i_parents (snd ir))) (i_md (snd ir))) sorted /\
+    ns' = map (fun nd => mkN (n_flags nd) (n_time nd) (n_pop nd) (remap_ref idmap (n_ind nd)) (n_md nd)) ns /\
+    (forall p r, getz inds p = Ok r -> getz sorted (idmap p) = Ok (p, r)).
+Proof. exact sort_individuals_canonical_remap. Qed.
